@@ -476,13 +476,10 @@ void f_mult_eq () {
 
     case T_MAPPING:
       {
-        mapping_t *m = compose_mapping (argp->u.map, sp->u.map, 0);
-        if (argp->u.map != sp->u.map)
-          {
-            pop_stack ();
-            push_mapping (m);
-          }
-        assign_svalue (argp, sp);
+        /* with flag 0 the left mapping is composed in place and NULL is returned */
+        compose_mapping (argp->u.map, sp->u.map, 0);
+        pop_stack ();
+        push_mapping (argp->u.map);
         break;
       }
 
